@@ -596,6 +596,12 @@ def fold_predicates(ck: Checker, rule='C12.FOLD', real_iterator=True):
         funcs += [(n, m, [list(r) for r in combo]) for combo in pick]
     funcs.append((2, 1, [[False, True, False, True]]))
     funcs.append((2, 2, [[False, False, True, True], [True, True, False, False]]))
+    # four inputs: invariant under rotation of the inputs but not symmetric (1 exactly on 1010 and 0101), a symmetric one (majority),
+    # one depending on a single input, and the two together as a two-output function
+    rot = [t in (0b1010, 0b0101) for t in range(16)]
+    maj = [bin(t).count('1') >= 3 for t in range(16)]
+    third = [bool(t & 0b0010) for t in range(16)]
+    funcs += [(4, 1, [rot]), (4, 1, [maj]), (4, 1, [third]), (4, 2, [maj, rot])]
     n_q = 0
     for kind in ('TruthTable', 'PyFunction', 'Circuit'):
         probs = []
